@@ -22,7 +22,7 @@ def run(ctx):
     ctx.tlc_must_pass("MC_EncoderBytes", "MC_EncoderBytes_q" if quick else "MC_EncoderBytes_5", timeout=3400)
     shards = 8 if quick else 32
     p, _ = ctx.run_harness(["drive-enc", "-out", ctx.tmp, "-shards", str(shards), "-n", str(300 if quick else 20000),
-                            "-families", "wellformed,runs,longruns,zerofirst,illegal,open,reuse,converse", "-cmp", "err"], timeout=3000)
+                            "-families", "wellformed,runs,longruns,arcshapes,zerofirst,illegal,open,reuse,converse", "-cmp", "err"], timeout=3000)
     summ = deccheck.summary_of(p)
     files = [f for f in sorted(glob.glob(os.path.join(ctx.tmp, "rt.*.ndjson"))) if os.path.getsize(f) > 0]
     events, diags, runs = vlib.tv_shards(ctx, "TV_EncoderBytes", "TV_EncoderBytes", files, expect_all=False)
